@@ -51,8 +51,6 @@ Definition items_of (r : nat) (h : list op) (xs : list out) : list (op * out) :=
   filter (fun p => match target (fst p) with Some r' => r' =? r | None => false end) (combine h xs).
 Definition forces (o : op) : bool :=
   match o with Samples _ _ _ _ => true | Freqs _ _ false _ => true | _ => false end.
-Definition needs_shots (o : op) : bool :=
-  match o with Samples _ _ _ _ => true | Freqs _ _ _ _ => true | _ => false end.
 
 Definition spec_verdict (cfg : config) (h : list op) (xs : list out) (r : nat) (R : result)
            (cand : option (list nat)) : nat :=
